@@ -249,6 +249,8 @@ class Model:
         self.child_cb_in_iter = False
         self.io_cb_in_iter = False
         self.stat('iterations')
+        if r.get('wk') in ('late', 'exact', 'stall'):
+            self.stat('wake_' + r['wk'])
 
     def close_iter(self):
         """R-ONCE at the end of the iteration at time W"""
